@@ -172,6 +172,10 @@ func (b *NameBuilder) Reset() {
 func (b *NameBuilder) ParseReadable(s []byte) error {
 	b.Reset()
 
+	if len(s) == 0 { // root domain
+		return nil
+	}
+
 	if s[len(s)-1] == '.' {
 		s = s[:len(s)-1]
 	}
